@@ -69,9 +69,9 @@ Definition undeclared_args (t name : nat) (args : list arg) : list arg :=
   | Some (DObject fs _) | Some (DInterface fs) =>
       match find_field name fs with
       | Some fd => filter (fun av => negb (declared_by fd av)) args
-      | None => []
+      | None => if Nat.eqb name TYPENAME then args else []
       end
-  | _ => []
+  | _ => if Nat.eqb name TYPENAME then args else []
   end.
 
 (* ---- arguments: each declared argument that the request supplies, variables substituted,
